@@ -64,6 +64,13 @@ def conjuncts(test):
         for v in test.operand.values:
             out |= conjuncts(ast.UnaryOp(op=ast.Not(), operand=v))
         return frozenset(out)
+    if isinstance(test, ast.Compare) and len(test.ops) > 1:
+        # chained comparison a < b < c  ==  a < b and b < c
+        out = set()
+        items = [test.left] + list(test.comparators)
+        for i, op in enumerate(test.ops):
+            out.add(atom(ast.Compare(left=items[i], ops=[op], comparators=[items[i + 1]])))
+        return frozenset(out)
     return frozenset([atom(test)])
 
 
